@@ -76,3 +76,9 @@ PROPS["C09"] = dict(pkg="c09", shards=16, level="exploration",
     technique="property-based testing (rapid) over generated scopes and plugin schemas; oracle = describe/rebuild/describe fixed point (directly, over CBOR and over YAML) and original-vs-rebuilt behavioural differential on generated inputs",
     level_text="Exploration: generated scopes and whole plugin schemas using every describable feature; each is described, rebuilt (directly, after a real CBOR and a real YAML round trip), described again and compared; original and rebuilt schema are run side by side on valid and mutated inputs; every scope of a rebuilt plugin schema (including signal data scopes) must be usable as returned.",
     level_note="Generated schemas stay inside what the meta-schema can express for content it merely stores (IDs matching idType, non-empty display strings and property names, non-empty enums, no TypedStringEnumSchema[T]); behaviour is compared by value only for schemas without struct mapping, because the struct mapping (which changes defaulting of by-value members) is not part of a description.")
+
+PROPS["C10"] = dict(pkg="c10", shards=16, level="exploration",
+    technique="mutation-based property testing (rapid + per-description enumeration of single structural mutations, sampled doubles, grammar-free trees) executed in supervised workers; oracle = load returns error or a schema on which every exercised operation is total",
+    level_text="Exploration: valid descriptions of generated scopes and plugin schemas are mutated at every node (delete / rename / retype / re-point / unparsable texts / bad unit multipliers), loaded through UnserializeScope / UnserializeSchema in a supervised worker and, when accepted, exercised with generated inputs; panics, fatal errors and hangs at load time or on first use are violations.",
+    level_note="The quick tier runs a generated sample (about 400 per description) of each description's mutation enumeration, the thorough tier all of it; Client.ReadSchema is exercised by C08's hello-message faults (it is UnserializeSchema behind a CBOR decode).",
+    cap_s={"quick": 900, "thorough": 3400})
